@@ -50,6 +50,8 @@ pub struct Pass0Context {
     pub messages: Rc<RefCell<Vec<String>>>,
     // macro calls expanded so far
     pub expansions: Cell<usize>,
+    // files included from macro bodies so far
+    pub included_files: Rc<Cell<usize>>,
 }
 
 impl Pass0Context {
@@ -97,6 +99,7 @@ pub fn build_pass_0(
         macros: Rc::new(Macro::new()),
         messages: Rc::new(RefCell::new(parsed.messages)),
         expansions: Cell::new(0),
+        included_files: Rc::new(Cell::new(0)),
     };
 
     for segment in parsed.segments {
@@ -226,6 +229,7 @@ fn macro_expand(
             macros: context.macros.clone(),
             messages: context.messages.clone(),
             include_depth: 0,
+            included_files: context.included_files.clone(),
         };
         parse_iter(&mut iter, &parse_context)?;
     } else {
